@@ -690,6 +690,13 @@ class Func:
                 continue
             if cval(r) is not None:
                 continue            # constants are already folded where they matter
+            lt0 = next((l["t"] for l in self.locals if l["ref"]["id"] == pid), None) or {}
+            rt0 = r.get("t") or {}
+            if lt0.get("k") in ("int", "bool", "enum") and rt0.get("k") in ("int", "bool", "enum"):
+                lb_, rb_ = lt0.get("bits") or 0, rt0.get("bits") or 0
+                same_sign = bool(lt0.get("signed")) == bool(rt0.get("signed"))
+                if not (lb_ >= 32 or (lb_ >= rb_ and (same_sign or (lt0.get("signed") and lb_ > rb_)))):
+                    continue        # a copy into fewer than 32 bits that is narrower or changes signedness converts the value
             fv = {y["ref"]["id"] for y in walk(r) if y.get("k") == "Ref" and y["ref"].get("rk") in ("local", "param")}
             if pid in fv:
                 continue
